@@ -103,3 +103,11 @@ CASES += [
         ("quantarhei/builders/aggregate_spectroscopy.py", "        if not self._diagonalized:\n            if verbose > 0:\n                print(\"Diagonalizing aggregate\")\n            self.diagonalize()",
          "        if self._diagonalized:\n            if verbose > 0:\n                print(\"Diagonalizing aggregate\")\n            self.diagonalize()", 2)]},
 ]
+
+_MOCK = "quantarhei/spectroscopy/mocktwodcalculator.py"
+CASES += [
+    {"name": "rotating-frame Hamiltonian of the first calculation kept for the later ones (after the seeded change of round 8)", "kind": "mutant", "rule": "C12-N", "edits": [
+        (_MOCK, "        H = eUt.get_Hamiltonian()\n    \n", "        if getattr(self, \"_ham_kept\", None) is None:\n            self._ham_kept = eUt.get_Hamiltonian()\n        H = self._ham_kept\n    \n", 1)]},
+    {"name": "Hamiltonian asked for under another local name", "kind": "twin", "edits": [
+        (_MOCK, "        H = eUt.get_Hamiltonian()\n    \n", "        ham_of_u = eUt.get_Hamiltonian()\n        H = ham_of_u\n    \n", 1)]},
+]
